@@ -320,7 +320,9 @@ def _sort_and_select(
     last: int,
 ) -> NDArray[np.float64]:
     values = np.where(failed_realizations, np.nan, values)
-    indices = np.argsort(values)
+    # A stable sort ranks equal values by realization index, independent of
+    # the number and position of the failed realizations:
+    indices = np.argsort(values, kind="stable")
     # nan values are sorted to the end, drop them:
     indices = indices[: np.count_nonzero(~failed_realizations)]
     indices = indices[first : last + 1]
@@ -336,7 +338,9 @@ def _get_cvar_weights_from_percentile(
 ) -> NDArray[np.float64]:
     values = np.where(failed_realizations, np.nan, values)
 
-    indices = np.argsort(values)
+    # A stable sort ranks equal values by realization index, independent of
+    # the number and position of the failed realizations:
+    indices = np.argsort(values, kind="stable")
     # nan values are sorted to the end, drop them:
     indices = indices[: np.count_nonzero(~failed_realizations)]
 
